@@ -107,6 +107,16 @@ pub trait RecursiveAir<F: Field, EF: ExtensionField<F>, LG: LookupProtocol> {
     /// [`p3_air::BaseAir::main_next_row_columns`]: AIRs with no inter-row constraints
     /// (e.g. constant, public, and recompose tables) omit the `trace_next` opening.
     fn opens_trace_next(&self) -> bool;
+
+    /// Whether this AIR reads any preprocessed column on the next row, meaning the
+    /// preprocessed trace must be opened at `zeta * g` in addition to `zeta`.
+    ///
+    /// This mirrors the native prover/verifier gating on
+    /// [`p3_air::BaseAir::preprocessed_next_row_columns`].
+    fn opens_preprocessed_next(&self) -> bool;
+
+    /// Width of the AIR's preprocessed trace (0 when it has none).
+    fn preprocessed_width(&self) -> usize;
 }
 
 impl<F: Field, EF: ExtensionField<F>, A, LG: LookupProtocol> RecursiveAir<F, EF, LG> for A
@@ -223,6 +233,14 @@ where
 
     fn opens_trace_next(&self) -> bool {
         !p3_air::BaseAir::<F>::main_next_row_columns(self).is_empty()
+    }
+
+    fn opens_preprocessed_next(&self) -> bool {
+        !p3_air::BaseAir::<F>::preprocessed_next_row_columns(self).is_empty()
+    }
+
+    fn preprocessed_width(&self) -> usize {
+        p3_air::BaseAir::<F>::preprocessed_width(self)
     }
 }
 
